@@ -571,7 +571,9 @@ def main(argv):
         res_changed, res_refused = [], ["residual: %s" % str(e)[:200]]
     res_only, any_change = residual.split(res_changed)
     res_mine = [f for f in res_only if f in residual.files_of(pid)]
-    src_mine = [f for f in any_change if f in residual.files_of(pid)]
+    # any change of the program text counts, also in a file the property is not anchored in: what a property depends on is
+    # wider than its anchor list (a change of the project-directory canonicalisation breaks the skip decision of C03)
+    src_mine = list(any_change)
     if update_baseline and not res_refused:
         residual.update(zv.REPO)
         res_mine, src_mine = [], []
@@ -579,7 +581,7 @@ def main(argv):
     # property is anchored in differs from the tree the contracts were written for (a changed tree gets everything we have:
     # a contract that is too weak to notice a change must not be the last word on it)
     if (undecided and not violations) or tier == "thorough" or ((res_mine or src_mine) and not violations):
-        why = ("undecided: " + "; ".join(undecided)[:400]) if undecided else (("code under no contract changed in " + ", ".join(res_mine)) if res_mine else (("program text changed in " + ", ".join(src_mine)) if src_mine else "thorough tier"))
+        why = ("undecided: " + "; ".join(undecided)[:400]) if undecided else (("code under no contract changed in " + ", ".join(res_mine)) if res_mine else (("program text changed in " + ", ".join(src_mine[:6])) if src_mine else "thorough tier"))
         binfo, bfail = bounded_stand_in(pid, seed, why, tier)
     binfo["unverified_code_changed_in"] = res_mine
     binfo["program_text_changed_in"] = src_mine
